@@ -39,6 +39,22 @@ def facts_full(test, polarity=True):
   return out
 
 
+_NEG_OPS = {ast.NotEq: ast.Eq, ast.IsNot: ast.Is, ast.NotIn: ast.In}
+
+
+def _fold(e, pol):
+  """`a != b` known true is `a == b` known false (same for `is not`, `not in`)."""
+  if isinstance(e, ast.Compare) and len(e.ops) == 1 and type(e.ops[0]) in _NEG_OPS:
+    e2 = ast.Compare(left=e.left, ops=[_NEG_OPS[type(e.ops[0])]()], comparators=e.comparators)
+    return ast.copy_location(e2, e), not pol
+  return e, pol
+
+
+def nfacts(test, polarity=True, full=False):
+  """facts / facts_full with negated comparison operators folded into the polarity."""
+  return [_fold(e, p) for (e, p) in (facts_full if full else facts)(test, polarity)]
+
+
 class Leaf(object):
   """One expression a value may come from. `nid`: CFG node where `expr` is evaluated; `chain`:
   every node passed while following locals (use site first); `conds`: (test, polarity, nid) of
@@ -324,11 +340,41 @@ class Flow(object):
         todo.append(b)
     return seen
 
+  def _matches(self, e, i, atom):
+    """Does fact expression `e` (evaluated at if-node i) satisfy atom, directly or as a local that
+    holds the test's value? Returns the set of local names whose rebinding loses the fact, or
+    None."""
+    if atom(e, i):
+      return {x.id for x in ast.walk(e) if isinstance(x, ast.Name)} - _bound_inside(e)
+    if isinstance(e, ast.Name):
+      r, rn = self.resolve(e, i)
+      if r is not e:
+        r, pol = _fold(r, True)
+        if pol and atom(r, rn):
+          return {e.id}
+    return None
+
+  def _matches_pol(self, e, p, i, atom, want):
+    """(matches, kill names) for fact (e, p) against atom with truth value `want`; a local bound
+    to `not <test>` / a negated comparison matches with the opposite polarity."""
+    if p == want:
+      k = self._matches(e, i, atom)
+      if k is not None:
+        return k
+    if isinstance(e, ast.Name):
+      r, rn = self.resolve(e, i)
+      if r is not e:
+        for (e2, p2) in nfacts(r, p):
+          if p2 == want and e2 is not r and atom(e2, rn):
+            return {e.id}
+    return None
+
   def guarded(self, nid, atom, want=True, kills=None):
-    """Every entry->nid path last learnt that an expression satisfying atom(expr, if-node id) has
+    """Every entry->nid path last learnt that an expression satisfying atom(expr, node id) has
     truth value `want` -- whichever way the guard is spelled (`if a: X`, `if not a: continue` + X,
-    `if a and b: X`, swapped branches). A rebinding of a local the matching expression reads loses
-    the fact (computed here unless `kills` is given)."""
+    `if a and b: X`, swapped branches, `a != b` for `not a == b`, the test bound to a local
+    first). A rebinding of a local the matching expression reads loses the fact (computed here
+    unless `kills` is given)."""
     cfg = self.cfg
     edges = set()
     names = set()
@@ -337,10 +383,11 @@ class Flow(object):
         continue
       t, f = self._if_edges(n.id)
       for pol, succs in ((True, t), (False, f)):
-        for (e, p) in facts(n.stmt.test, pol):
-          if p == want and atom(e, n.id):
+        for (e, p) in nfacts(n.stmt.test, pol):
+          k = self._matches_pol(e, p, n.id, atom, want)
+          if k is not None:
             edges |= {(n.id, s) for s in succs}
-            names |= {x.id for x in ast.walk(e) if isinstance(x, ast.Name)} - _bound_inside(e)
+            names |= k
     if not edges:
       return False
     if kills is None:
@@ -353,8 +400,8 @@ class Flow(object):
     return nid not in self._cut_reach(starts, edges)
 
   def edges_where(self, atom, want=True):
-    """CFG edges (if-node id, successor id) on which an expression satisfying atom(expr, if-node
-    id) is known to have truth value `want`."""
+    """CFG edges (if-node id, successor id) on which an expression satisfying atom(expr, node id)
+    is known to have truth value `want`."""
     cfg = self.cfg
     edges = set()
     for n in cfg.nodes:
@@ -362,7 +409,8 @@ class Flow(object):
         continue
       t, f = self._if_edges(n.id)
       for pol, succs in ((True, t), (False, f)):
-        if any(p == want and atom(e, n.id) for (e, p) in facts(n.stmt.test, pol)):
+        if any(self._matches_pol(e, p, n.id, atom, want) is not None
+               for (e, p) in nfacts(n.stmt.test, pol)):
           edges |= {(n.id, s) for s in succs}
     return edges
 
@@ -381,7 +429,12 @@ class Flow(object):
         if not edges:
           continue
         if nid not in self._cut_reach({cfg.entry.id}, edges):
-          out.extend((e, p, n.id) for (e, p) in facts_full(n.stmt.test, pol))
+          for (e, p) in nfacts(n.stmt.test, pol, full=True):
+            r, rn = self.resolve(e, n.id) if isinstance(e, ast.Name) else (e, n.id)
+            if r is not e and isinstance(r, (ast.Compare, ast.BoolOp, ast.UnaryOp, ast.Call)):
+              out.extend((e2, p2, rn) for (e2, p2) in nfacts(r, p, full=True))
+            else:
+              out.append((e, p, n.id))
           break
     return out
 
@@ -447,7 +500,7 @@ def leaf_polarity(flow, leaf, atom):
   a conditional expression on the way or an `if` guarding one of the nodes passed); None when
   neither is known."""
   for (t, pol, n) in leaf.conds:
-    for (e, p) in facts(t, pol):
+    for (e, p) in nfacts(t, pol):
       if atom(e, n):
         return p
   for want in (True, False):
@@ -527,4 +580,34 @@ def same_module_callees(w, fn, call, depth=2):
       for s in fi.node.body:
         for c in calls_in(s):
           frontier.extend((t, d + 1) for t in cg.resolve(f2, c))
+  return out
+
+
+def own_helper(w, fn, call, exclude=()):
+  """The single method of fn's own class that `call` (on self) invokes, unless its name is in
+  `exclude`; else None. Used to follow statements that were extracted into a private helper."""
+  f = call.func
+  if not (isinstance(f, ast.Attribute) and isinstance(f.value, ast.Name) and f.value.id == "self"):
+    return None
+  if fn.fi.cls is None or f.attr in exclude:
+    return None
+  tg = [t for t in callgraph(w).resolve(fn, call) if t.cls is not None]
+  if len(tg) != 1 or tg[0].qualname == fn.qualname:
+    return None
+  mro = {c.qualname for c in w.repo.mro(fn.fi.cls)}
+  return tg[0] if tg[0].cls.qualname in mro else None
+
+
+def mutation_nodes_deep(w, fn, cfg=None, exclude=()):
+  """events.mutation_nodes plus the nodes calling a helper of the same class (not named in
+  `exclude`) that itself mutates column data / the schema."""
+  from .. import events as E
+  cfg = cfg or fn.cfg
+  out = set(E.mutation_nodes(fn, cfg))
+  for (n, c, nm) in fn.calls(cfg):
+    if n.id in out:
+      continue
+    h = own_helper(w, fn, c, exclude)
+    if h is not None and E.mutation_nodes(w.fn_of(h)):
+      out.add(n.id)
   return out
